@@ -2,7 +2,7 @@
 
 
 def run(ctx):
-    ctx.lean_obligations(["SV.Props.C02"], drivers=["svdriver_c02"])
+    ctx.lean_obligations(["SV.Props.C02", "SV.Props.C02e2e"], drivers=["svdriver_c02"])
     quick = ctx.tier == "quick"
     b = ctx.go_test_binary("fs/layer", "h_layer_c02")
     if b:
